@@ -53,6 +53,11 @@ type c03Case struct {
 	Frac    float64      `json:"frac"`    // limitmemory
 	Trace   bool         `json:"trace"`   // record the protocol events (Add/Done/Wait/Push/Close/End)
 	Quiet   int          `json:"quiet"`   // ms without a new event before the recording stops (default 3)
+	ErrMod  int          `json:"errmod"`  // chain: >0: the first worker fails on id mod errmod == 3, the second on id mod errmod == 4
+	NilW    int          `json:"nilw"`    // chain: bit 0: the first worker is nil, bit 1: the second worker is nil
+	Counts  bool         `json:"counts"`  // the records carry count = id mod 3 + 1 and the long sequences
+	Tree    []c03Node    `json:"tree"`    // expand: the directory tree
+	Args    []string     `json:"args"`    // expand: the paths given to ExpandListOfFiles
 }
 
 type c03Out struct {
@@ -70,6 +75,9 @@ type c03Obs struct {
 	Outs  []c03Out `json:"outs"`
 	News  []int    `json:"news,omitempty"` // distribute: keys in the order they were announced
 	Trace [][4]int `json:"trace,omitempty"` // (goroutine, iterator, kind, n) in log order
+	Files []string `json:"files,omitempty"` // expand: the list of files, relative to the root of the tree
+	Err   string   `json:"err,omitempty"`   // expand: ExpandListOfFiles returned an error
+	Unk   bool     `json:"unk,omitempty"`   // distribute: Outputs of a key that was never announced is an error
 }
 
 var c03Fatal atomic.Bool
@@ -90,6 +98,7 @@ func c03LongSeq(id int) *obiseq.BioSequence {
 }
 
 var c03Long = false
+var c03Counts = false
 var c03Paired = false
 
 // c03Mate: id of the mate of record id in paired cases
@@ -103,6 +112,9 @@ func c03Slice(ids []int) obiseq.BioSequenceSlice {
 			r = c03LongSeq(id)
 		} else {
 			r = c03Seq(id)
+		}
+		if c03Counts {
+			r.SetCount(id%3 + 1)
 		}
 		if c03Paired {
 			r.PairTo(c03Seq(c03Mate(id)))
@@ -164,6 +176,12 @@ func (c *c03Collector) drain(key int, it obiiter.IBioSequence, paired bool) {
 			ob := c03Batch{O: b.Order(), Ids: []int{}}
 			for _, s := range b.Slice() {
 				ob.Ids = append(ob.Ids, c03Id(s))
+				if s == nil { // a nil record inside a batch: id -1, nothing else to read
+					if paired {
+						ob.Pids = append(ob.Pids, -1)
+					}
+					continue
+				}
 				if c03Long {
 					ob.Names = append(ob.Names, s.Id())
 					ob.Seqs = append(ob.Seqs, string(s.Sequence()))
@@ -210,7 +228,8 @@ func c03Pred(mod int) obiseq.SequencePredicate {
 func c03Run(c c03Case) (obs c03Obs) {
 	obs = c03Obs{Kind: "ok", Outs: []c03Out{}}
 	c03Fatal.Store(false)
-	c03Long = c.Op == "fragments"
+	c03Long = c.Op == "fragments" || c.Counts
+	c03Counts = c.Counts
 	c03Paired = c.Paired
 	if c.Trace {
 		obiiter.VerifTraceStart()
@@ -223,6 +242,7 @@ func c03Run(c c03Case) (obs c03Obs) {
 	col := &c03Collector{}
 	var newsMu sync.Mutex
 	news := []int{}
+	unk := false
 	newsDone := make(chan struct{})
 	close(newsDone)
 	func() {
@@ -289,6 +309,10 @@ func c03Run(c c03Case) (obs c03Obs) {
 						col.drain(k, it, false)
 					}
 				}
+				_, e := d.Outputs(1 << 20)
+				newsMu.Lock()
+				unk = e != nil
+				newsMu.Unlock()
 				close(newsDone)
 			}()
 		case "concat":
@@ -418,7 +442,9 @@ func c03Run(c c03Case) (obs c03Obs) {
 				close(newsDone)
 			}()
 		default:
-			panic("unknown op " + c.Op)
+			if !c03RunR3(c, col, src, nw, &obs) {
+				panic("unknown op " + c.Op)
+			}
 		}
 	}()
 	if obs.Kind == "panic" {
@@ -487,6 +513,7 @@ wait:
 	sort.SliceStable(obs.Outs, func(i, j int) bool { return obs.Outs[i].Key < obs.Outs[j].Key })
 	newsMu.Lock()
 	obs.News = append([]int{}, news...)
+	obs.Unk = unk
 	newsMu.Unlock()
 	return obs
 }
